@@ -83,14 +83,19 @@ def error_scripts(rng, n):
         m = rng.randrange(1, 9)
         evs, t = [], 0
         fatal = rng.random() < 0.35
+        slow = rng.random() < 0.4
         for i in range(1, m + 1):
             t += rng.choice([0, 0, 0, 10, 30, 80])
             v = rng.choice(["pass", "error", "error", "reject"])
             onerr = "ignore"
             if v == "error" and fatal and rng.random() < 0.4:
                 onerr = rng.choice(["elevate", "critical"])
-            evs.append(ev(i, t, prio=rng.choice([1, 1, 2]), verdict=v, onerr=onerr,
-                          hold=rng.choice([0, 0, 50])))
+            elif v == "error" and rng.random() < 0.15:
+                onerr = "replace"           # the error handler installs a new one from inside the call
+            e = ev(i, t, prio=rng.choice([1, 1, 2]), verdict=v, onerr=onerr, hold=rng.choice([0, 0, 50]))
+            if v == "error" and slow:
+                e["errhold"] = rng.choice([0, 20, 60, 200])     # a slow error handler
+            evs.append(e)
         evs.append(ev(m + 1, t + 300))        # a later ordinary event must still be delivered
         out.append(script("r%05d" % k, evs, "errors", cap=rng.choice([2, 4096]), ecap=rng.choice([1, 1, 2, 64]),
                           throttle=rng.choice([0, 30])))
